@@ -298,6 +298,38 @@ func runSendClose(c *Ctx) {
 					return bad
 				})
 			}
+			// a connection object created in this function that was not (yet) stored into the hub's maps on any path to here
+			// is not reachable by senders at all
+			if sel, ok := ast.Unparen(call.Fun).(*ast.SelectorExpr); ok && !after && !inside {
+				if recv := ObjOf(info, sel.X); recv != nil {
+					created, linked := false, false
+					cfgf.EachNode(func(sr NodeRef) {
+						as, ok := sr.Node().(*ast.AssignStmt)
+						if !ok {
+							return
+						}
+						for i, l := range as.Lhs {
+							if ObjOf(info, l) == recv && i < len(as.Rhs) {
+								e := ast.Unparen(as.Rhs[i])
+								if u, ok := e.(*ast.UnaryExpr); ok && u.Op == token.AND {
+									e = ast.Unparen(u.X)
+								}
+								if _, isLit := e.(*ast.CompositeLit); isLit {
+									created = true
+								}
+							}
+							// stored somewhere (map element, field) on a path that reaches the close
+							if _, isIdent := ast.Unparen(l).(*ast.Ident); !isIdent && i < len(as.Rhs) && ObjOf(info, as.Rhs[i]) == recv && cfgf.Reaches(sr, r) {
+								linked = true
+							}
+						}
+					})
+					if created && !linked {
+						c.OK(key, call.Pos(), "closes the channel of a connection object created here and never linked into the hub on a path to this point")
+						return
+					}
+				}
+			}
 			c.Check(after || inside, key, call.Pos(), "channel closed only after (or in the same write-locked section as) the connection was unlinked from Hub.sessions",
 				"closeSend() on a connection that is still reachable through Hub.sessions: a sender holding the read lock can still find it and send on the closed channel")
 		})
@@ -341,6 +373,9 @@ func runSendClose(c *Ctx) {
 					}
 					if calleeIs(info, v, "time", "After") || calleeIs(info, v, "time", "Sleep") {
 						dyn = true
+					}
+					if dyn && pureCallbackParam(p, f, info, v) {
+						dyn = false
 					}
 					if dyn {
 						nout++
@@ -432,7 +467,7 @@ func runSendClose(c *Ctx) {
 			c.Check(!async, "consumer-in-order", cf.Pos(), "the writer goroutine calls the connection's send function synchronously, one envelope after the other", "the writer goroutine hands envelopes to further goroutines: messages from one peer to another can be reordered")
 		}
 	}
-	c.Check(consumers == 1 && len(consumerIn) == 1 && strings.HasPrefix(consumerIn[0], "peers.(*Hub).Add$"), "single-consumer", closeSend.Pos(),
+	c.Check(consumers == 1 && len(consumerIn) == 1 && consumerInCreator(p, consumerIn[0]), "single-consumer", closeSend.Pos(),
 		"exactly one receiver of the per-peer channel: the writer goroutine started in Add (per-connection FIFO, no duplication)",
 		fmt.Sprintf("the per-peer channel has %d receivers (%v): messages can be reordered or split between consumers", consumers, consumerIn))
 	c.Check(closers == 1 && closerIn[0] == "peers.(*peerConnection).closeSend", "single-closer", closeSend.Pos(), "the channel is closed only inside closeSend (sync.Once)",
@@ -931,4 +966,124 @@ func runHubScope(c *Ctx) {
 			c.Check(okErr, "server/peer-not-found", ws.Pos(), "the unknown-addressee error is written through the author's own send function only", "the peer_not_found error is routed through the hub (other peers could see it) or not sent to the author")
 		}
 	}
+}
+
+// consumerInCreator: the consuming function is a literal nested in the declared function that creates the per-peer channel
+// (make(chan protocol.Envelope ...)): the writer goroutine started at registration.
+func consumerInCreator(p *Program, name string) bool {
+	f := p.Func(name)
+	if f == nil || f.Lit == nil || f.Parent == nil {
+		return false
+	}
+	root := f.Root()
+	makes := false
+	ast.Inspect(root.Body, func(n ast.Node) bool {
+		if call, ok := n.(*ast.CallExpr); ok {
+			if id, ok := ast.Unparen(call.Fun).(*ast.Ident); ok && id.Name == "make" && len(call.Args) >= 1 {
+				if ct, ok := root.Info().TypeOf(call.Args[0]).Underlying().(*types.Chan); ok && strings.HasSuffix(ct.Elem().String(), "protocol.Envelope") {
+					makes = true
+				}
+			}
+		}
+		return true
+	})
+	return makes && strings.HasPrefix(root.Name, "peers.(*Hub).")
+}
+
+// pureCallbackParam: the dynamic call goes through a parameter of f, and at every static call site of f (following one level
+// of forwarding wrappers) the argument is nil or a function literal / closure variable whose body calls nothing but builtins:
+// such a callback computes on its arguments and cannot block on a peer.
+func pureCallbackParam(p *Program, f *FuncInfo, info *types.Info, call *ast.CallExpr) bool {
+	id, ok := ast.Unparen(call.Fun).(*ast.Ident)
+	if !ok || f.Obj == nil || f.Type.Params == nil {
+		return false
+	}
+	pv := ObjOf(info, id)
+	var pureArg func(g *FuncInfo, obj *types.Func, idx int, depth int) bool
+	pureArg = func(g *FuncInfo, obj *types.Func, idx int, depth int) bool {
+		sites := p.CallSites(obj)
+		if len(sites) == 0 {
+			return false
+		}
+		for _, st := range sites {
+			var c2 *ast.CallExpr
+			InspectNoLits(st.ref.Node(), func(n ast.Node) bool {
+				if ce, ok := n.(*ast.CallExpr); ok && Callee(st.f.Info(), ce) == obj {
+					c2 = ce
+				}
+				return true
+			})
+			if c2 == nil || idx >= len(c2.Args) {
+				return false
+			}
+			a := ast.Unparen(c2.Args[idx])
+			si := st.f.Info()
+			if tv, ok := si.Types[a]; ok && tv.IsNil() {
+				continue
+			}
+			var cl *FuncInfo
+			switch v := a.(type) {
+			case *ast.FuncLit:
+				cl = p.LitInfo(v)
+			case *ast.Ident:
+				if o, ok := ObjOf(si, v).(*types.Var); ok {
+					if cl = p.ClosureOfVar(o); cl == nil && depth > 0 && st.f.Obj != nil && st.f.Type.Params != nil {
+						// forwarded parameter of a wrapper
+						j := 0
+						fwd := false
+						for _, fl := range st.f.Type.Params.List {
+							for _, nm := range fl.Names {
+								if si.Defs[nm] == o && pureArg(st.f, st.f.Obj, j, depth-1) {
+									fwd = true
+								}
+								j++
+							}
+						}
+						if fwd {
+							continue
+						}
+					}
+				}
+			}
+			if cl == nil {
+				return false
+			}
+			pure := true
+			ast.Inspect(cl.Body, func(n ast.Node) bool {
+				switch x := n.(type) {
+				case *ast.CallExpr:
+					if fid, ok := ast.Unparen(x.Fun).(*ast.Ident); ok {
+						if _, isB := cl.Info().Uses[fid].(*types.Builtin); isB {
+							return true
+						}
+					}
+					if tv, ok := cl.Info().Types[x.Fun]; ok && tv.IsType() {
+						return true
+					}
+					pure = false
+				case *ast.SendStmt, *ast.GoStmt, *ast.SelectStmt:
+					pure = false
+				case *ast.UnaryExpr:
+					if x.Op == token.ARROW {
+						pure = false
+					}
+				}
+				return true
+			})
+			if !pure {
+				return false
+			}
+		}
+		return true
+	}
+	j := 0
+	for _, fl := range f.Type.Params.List {
+		for _, nm := range fl.Names {
+			if info.Defs[nm] == pv {
+				return pureArg(f, f.Obj, j, 1)
+			}
+			j++
+		}
+	}
+	return false
 }
